@@ -104,4 +104,3 @@ func checkC25(c *Ctx) {
 	c.Extra["string_paths"] = nPaths
 	c.Extra["text_samples"] = samples
 }
-
